@@ -110,6 +110,7 @@ func ops() []opT {
 		{"destroy a with the wrong owner (rejected)", rejected(func(ctx context.Context, st state.State) error {
 			return st.Destroy(ctx, hx.IntPtr("a"), state.WithDestroyOwner("somebody-else"))
 		})},
+		{"update a (nothing changed)", upd("a", func(*conformance.IntResource) {})},
 	}
 }
 
@@ -830,7 +831,7 @@ func build(tier string) []explore.Scenario {
 			out = append(out, firstUseScenario(a, b, fb))
 		}
 	}
-	hists := [][]int{{0, 1, 2, 3}, {0, 4, 2, 3}, {4, 0, 3, 0}, {0, 1, 4, 5}, {5, 0, 2, 4}, {0, 3, 0, 1}, {0, 7, 1, 7}, {0, 4, 6, 1}, {4, 0, 6, 4}, {0, 1, 8, 4}, {0, 9, 10, 1}, {4, 0, 1, 8}}
+	hists := [][]int{{0, 1, 2, 3}, {0, 4, 2, 3}, {4, 0, 3, 0}, {0, 1, 4, 5}, {5, 0, 2, 4}, {0, 3, 0, 1}, {0, 7, 1, 7}, {0, 4, 6, 1}, {4, 0, 6, 4}, {0, 1, 8, 4}, {0, 9, 10, 1}, {4, 0, 1, 8}, {0, 11, 11, 1}, {0, 1, 11, 4}}
 	if tier == "thorough" {
 		hists = nil
 		var rec func(h []int)
@@ -849,7 +850,7 @@ func build(tier string) []explore.Scenario {
 			}
 		}
 		rec(nil)
-		hists = append(hists, []int{0, 9, 10, 1}, []int{0, 1, 9, 10}, []int{4, 0, 10, 9})
+		hists = append(hists, []int{0, 9, 10, 1}, []int{0, 1, 9, 10}, []int{4, 0, 10, 9}, []int{0, 11, 11, 1}, []int{0, 1, 11, 4}, []int{0, 11, 2, 11})
 	}
 	mnames := []string{"protobuf", "zstd(min=0)", "zstd(min=200)", "aes", "zstd(aes)", "aes(zstd(min=64))"}
 	for hi, h := range hists {
@@ -897,7 +898,7 @@ func valid(h []int) bool {
 				return false
 			}
 			b = true
-		case 7, 9, 10:
+		case 7, 9, 10, 11:
 			if !a {
 				return false
 			}
